@@ -1,2 +1,84 @@
-(* placeholder; theorems are added below *)
-From Hexital Require Import Base.Prelude.
+(* C04 - Moving averages match their definitions and are position independent.
+   The theorems are about the recurrence specifications of Spec/Steppers.v (tied to the
+   implementation by their own bit-exact correspondence, check_spec), over the reals with
+   round-half-even on round_value decimals; eps nd = half a unit of the last decimal. *)
+From Coq Require Import ZArith List String Bool Reals.
+From Flocq Require Import Core.
+From Hexital Require Import Base.Prelude Base.Num Model.Candle Inst.RealInst Spec.Steppers
+  Proofs.SpecGeneric Proofs.SpecReal.
+Import ListNotations.
+Local Open Scope R_scope.
+
+(* EMA: r[t] = a*x[t] + (1-a)*r[t-1] with a = smoothing/(period+1), up to one rounding *)
+Theorem C04_ema_recurrence :
+  forall (p : Z) (sm : R) (nd : Z) (s : state ROps) (x pr : R), (0 < p)%Z -> s_prev ROps s = Some pr ->
+  exists r s', ema_step ROps p sm nd s x = Ok (VNum r, s') /\ s_prev ROps s' = Some r /\
+    Rabs (r - ((sm / (IZR p + 1)) * x + pr * (1 - sm / (IZR p + 1)))) <= eps nd.
+Proof. exact ema_recurrence. Qed.
+Print Assumptions C04_ema_recurrence.
+
+(* RMA: the same with a = 1/period *)
+Theorem C04_rma_recurrence :
+  forall (p nd : Z) (s : state ROps) (x pr : R), (0 < p)%Z -> s_prev ROps s = Some pr ->
+  exists r s', rma_step ROps p nd s x = Ok (VNum r, s') /\ s_prev ROps s' = Some r /\
+    Rabs (r - ((1 / IZR p) * x + (1 - 1 / IZR p) * pr)) <= eps nd.
+Proof. exact rma_recurrence. Qed.
+Print Assumptions C04_rma_recurrence.
+
+(* SMA: the incremental form r[t] = r[t-1] - (x[t-p] - x[t])/p, one rounding per step ... *)
+Theorem C04_sma_recurrence :
+  forall (p nd : Z) (s : state ROps) (x pr old : R),
+  (0 < p)%Z -> s_prev ROps s = Some pr -> nth_error (s_buf ROps s) (Z.to_nat (p - 1)) = Some old ->
+  exists r s', sma_step ROps p nd s x = Ok (VNum r, s') /\ s_prev ROps s' = Some r /\
+    Rabs (r - (pr - (old - x) / IZR p)) <= eps nd.
+Proof. exact sma_recurrence. Qed.
+Print Assumptions C04_sma_recurrence.
+
+(* ... started, like EMA, from the mean of the first full window *)
+Theorem C04_sma_seed_is_window_mean :
+  forall (p nd : Z) (s : state ROps) (x : R),
+  (0 < p)%Z -> s_prev ROps s = None -> full ROps p (push ROps p x (s_buf ROps s)) = true ->
+  exists r s', sma_step ROps p nd s x = Ok (VNum r, s') /\
+    Rabs (r - fold_left Rplus (rev (push ROps p x (s_buf ROps s))) 0 / IZR p) <= eps nd.
+Proof. exact sma_seed. Qed.
+Print Assumptions C04_sma_seed_is_window_mean.
+
+Theorem C04_ema_seed_is_window_mean :
+  forall (p : Z) (sm : R) (nd : Z) (s : state ROps) (x : R),
+  (0 < p)%Z -> s_prev ROps s = None -> full ROps p (push ROps p x (s_buf ROps s)) = true ->
+  exists r s', ema_step ROps p sm nd s x = Ok (VNum r, s') /\
+    Rabs (r - fold_left Rplus (rev (push ROps p x (s_buf ROps s))) 0 / IZR p) <= eps nd.
+Proof. exact ema_seed. Qed.
+Print Assumptions C04_ema_seed_is_window_mean.
+
+(* no reading before `period` consecutive inputs exist *)
+Theorem C04_no_reading_before_window_full :
+  forall (p nd : Z) (sm : R) (s : state ROps) (x : R),
+  s_prev ROps s = None -> full ROps p (push ROps p x (s_buf ROps s)) = false ->
+  (exists s', sma_step ROps p nd s x = Ok (VNone, s') /\ s_prev ROps s' = None) /\
+  (exists s', ema_step ROps p sm nd s x = Ok (VNone, s') /\ s_prev ROps s' = None) /\
+  (exists s', wma_step ROps p nd s x = Ok (VNone, s') /\ s_prev ROps s' = None).
+Proof. exact ma_no_reading_before_full. Qed.
+Print Assumptions C04_no_reading_before_window_full.
+
+(* every EMA reading lies inside any interval (with end points on the rounding grid) that
+   holds the previous reading and the new input: by induction, inside the range of all
+   the inputs it has averaged *)
+Theorem C04_ema_within_input_range :
+  forall (p : Z) (sm : R) (nd : Z) (s : state ROps) (x pr lo hi : R),
+  (0 < p)%Z -> 0 < sm <= IZR p + 1 -> s_prev ROps s = Some pr ->
+  generic_format radix10 (FIX_exp (- nd)) lo -> generic_format radix10 (FIX_exp (- nd)) hi ->
+  lo <= pr <= hi -> lo <= x <= hi ->
+  exists r s', ema_step ROps p sm nd s x = Ok (VNum r, s') /\ lo <= r <= hi.
+Proof. exact ema_within_range. Qed.
+Print Assumptions C04_ema_within_input_range.
+
+(* position independence, for every NumOps instance (hence for the binary64 one): candles
+   before the input series begins are skipped without a trace, so the readings depend on
+   the input values only, not on where in the candle list they start *)
+Theorem C04_position_independent :
+  forall (O : NumOps) (k : kind_s O) (nd : Z), takes_input O k = true ->
+  forall (pre cs : list (inp O)), Forall (fun c => x_in O c = None) pre ->
+  series O k nd (pre ++ cs) = (vs <- series O k nd cs ;; Ok (map (fun _ => VNone) pre ++ vs)).
+Proof. exact position_independent. Qed.
+Print Assumptions C04_position_independent.
